@@ -3861,6 +3861,12 @@ def c20_build(ctx):
         rng.shuffle(calls)
         cases.append(mk("rt_master", t, group="master-text", meta={"mpair": i}))
         cases.append(mk("build_master", "\n".join(calls), group="master-builder", meta={"mpair": i}))
+        # … and with every list setter the content does not need called with an EMPTY list, the flag with `false`
+        extra = [name for name, v in groups.items() if not v and name != "variants"] + ([] if "ind 1" in other else ["ind 0"])
+        if extra:
+            c2 = calls + extra
+            rng.shuffle(c2)
+            cases.append(mk("build_master", "\n".join(c2), group="master-builder+defaults", meta={"mpair": i}))
     cases += c20_setter_twice()
     # built playlists whose segments never had `keys(..)` called, behind segments with keys (what a user writes for "this one is
     # not encrypted"): the written text must say so, i.e. re-parse to the same effective keys
